@@ -16,10 +16,17 @@
    STAR (Model/Star.v, default configuration), one seat, two untied finalists: the winner is one of the two top
    scorers and strictly more ballot weight places it above the other finalist (C12_star_runoff); other run-off
    sizes are modelled and compared with the code only.
-   Allocated score is decided per explored case against an independent reference (evidence: partial). *)
-From Coq Require Import ZArith QArith List.
+   Allocated score (Model/AllocScore.v: AllocatedScoreDistributor / AllocatedScoreSelector as coded): every round
+   without a tie elects the candidate with strictly the greatest weighted score sum among the candidates still
+   scored (in the selector nobody who holds a seat is), and takes exactly min(quota, weight of its supporters)
+   from its strongest supporters first (C12_alloc_strongest_first, C12_alloc_round, C12_alloc_every_round,
+   C12_alloc_select_round); the subtraction loop raises ValueError exactly when a ballot is empty or every ballot
+   supports the winner and they weigh less than the quota (C12_alloc_*_refuted: ordinary elections crash; ties are
+   resolved by set iteration order, or one tie entry stands for several seats). *)
+From Coq Require Import ZArith QArith Qminmax List.
 From VL Require Import Prelude.PyDict Model.GetNBest Model.Convert Model.Cardinal Proofs.Cardinal_proofs
-     Proofs.MJ_proofs Proofs.JR_proofs Model.Condorcet Model.Star Proofs.Star_proofs.
+     Proofs.MJ_proofs Proofs.JR_proofs Model.Condorcet Model.Star Proofs.Star_proofs
+     Model.Quota Model.AllocScore Proofs.AllocScore_proofs Proofs.MJ_removal_proofs.
 From Coq Require Import Permutation.
 Import ListNotations.
 Close Scope Q_scope.
@@ -231,6 +238,190 @@ Example C12_star_example :
   star_auto votes 1 = inl [Cand 2%positive].
 Proof. split; [eexists; split; vm_compute; reflexivity|vm_compute; reflexivity]. Qed.
 
+(* ---- allocated score (Model/AllocScore.v).  [wprofile] = the remaining ballots with their (rational) weights;
+   supporters of c = the ballots that score c; [cut_at c t f cur] = cur after c's supporters above level t are
+   exhausted, those at level t keep the share f of their weight (nothing when f = 0) and all others keep theirs;
+   [wpos] = all weights positive (wposb is its boolean form).
+
+   The subtraction loop (_fraction_out_elected) on positive weights and a positive amount [ss]:
+   - it never runs out of fuel and raises nothing but ValueError, and that EXACTLY when some ballot is empty or
+     every ballot supports c and all of them together weigh less than ss (crash_cond);
+   - otherwise the result is a cut: strongest supporters first, the last level reached reduced proportionally
+     (0 <= f < 1), and the total weight goes down by exactly min(ss, weight of c's supporters). *)
+Theorem C12_alloc_strongest_first : forall c fuel cur ss, wpos cur -> (length cur < fuel)%nat -> (0 < ss)%Q ->
+  match fraction_out fuel cur c ss with
+  | inr AE_value => crash_cond c cur ss
+  | inr _ => False
+  | inl cur' =>
+      ~ crash_cond c cur ss /\
+      exists t f, cur' = cut_at c t f cur /\ (0 <= f)%Q /\ (f < 1)%Q /\ (no_supporters c cur \/ has_score c cur t) /\
+                  (wtotal cur' == wtotal cur - Qmin ss (asupport c cur))%Q
+  end.
+Proof. exact fraction_out_spec. Qed.
+
+(* what a cut means ballot by ballot *)
+Theorem C12_alloc_cut_members : forall c t f cur b' w',
+  In (b', w') (cut_at c t f cur) <->
+  exists w, In (b', w) cur /\
+    (   (dget b' c = None /\ w' = w)
+     \/ (exists s, dget b' c = Some s /\ (s < t)%Q /\ w' = w)
+     \/ (exists s, dget b' c = Some s /\ (s == t)%Q /\ ~ (f == 0)%Q /\ w' = Qred (w * f))).
+Proof. exact cut_at_members. Qed.
+
+(* ... when a supporter loses anything, every supporter who scored the winner strictly higher is exhausted *)
+Theorem C12_alloc_cut_order : forall c t f (bw1 bw2 : sballot * Q) s1 s2,
+  dget (fst bw1) c = Some s1 -> dget (fst bw2) c = Some s2 -> (s2 < s1)%Q ->
+  cut_one c t f bw2 <> [bw2] -> cut_one c t f bw1 = [].
+Proof. exact cut_one_order. Qed.
+
+(* the winner of a round without a tie has strictly the greatest weighted score sum among the candidates scored
+   on some remaining ballot *)
+Theorem C12_alloc_winner : forall cur c rest,
+  get_n_best Qle_bool (sum_scores cur) 1 = Cand c :: rest ->
+  scored c cur /\ forall d, scored d cur -> d <> c -> (wscore cur d < wscore cur c)%Q.
+Proof. exact alloc_winner_greatest. Qed.
+
+(* one round without a tie of AllocatedScoreDistributor.evaluate (any prev_gains / max_seats): the winner, the
+   removal of one quota from its strongest supporters (removal_spec: a cut that takes min(quota, support)), the
+   elimination of the winner from the ballots when it reached max_seats, the exact condition of the crash *)
+Theorem C12_alloc_round : forall cf cur el rem c rest, wpos cur -> (0 < ac_quota cf)%Q -> (0 < rem)%nat ->
+  get_n_best Qle_bool (sum_scores cur) 1 = Cand c :: rest ->
+  (scored c cur /\ forall d, scored d cur -> d <> c -> (wscore cur d < wscore cur c)%Q) /\
+  match alloc_step cf cur el rem with
+  | AS_next cur' el' rem' =>
+      el' = eincr el c /\ rem' = (rem - 1)%nat /\ ~ crash_cond c cur (ac_quota cf) /\
+      exists mid, removal_spec c (ac_quota cf) cur mid /\
+                  cur' = (if eliminated (gained_of cf el c) (dget (ac_max cf) c) then subset_out c mid else mid) /\
+                  (wtotal cur' == wtotal cur - Qmin (ac_quota cf) (asupport c cur))%Q /\ wpos cur'
+  | AS_err e => e = AE_value /\ crash_cond c cur (ac_quota cf)
+  | AS_done _ => False
+  end.
+Proof. exact alloc_round. Qed.
+
+(* lifted to every state the loop goes through (areach: the states reached from the initial votes) *)
+Theorem C12_alloc_every_round : forall cf votes n cur el rem c rest, wpos votes -> (0 < ac_quota cf)%Q ->
+  areach cf votes [] n cur el rem -> (0 < rem)%nat ->
+  get_n_best Qle_bool (sum_scores cur) 1 = Cand c :: rest ->
+  (scored c cur /\ forall d, scored d cur -> d <> c -> (wscore cur d < wscore cur c)%Q) /\
+  match alloc_step cf cur el rem with
+  | AS_next cur' el' rem' =>
+      el' = eincr el c /\ rem' = (rem - 1)%nat /\ ~ crash_cond c cur (ac_quota cf) /\
+      exists mid, removal_spec c (ac_quota cf) cur mid /\
+                  cur' = (if eliminated (gained_of cf el c) (dget (ac_max cf) c) then subset_out c mid else mid) /\
+                  (wtotal cur' == wtotal cur - Qmin (ac_quota cf) (asupport c cur))%Q /\ wpos cur'
+  | AS_err e => e = AE_value /\ crash_cond c cur (ac_quota cf)
+  | AS_done _ => False
+  end.
+Proof. exact alloc_every_round. Qed.
+
+(* AllocatedScoreSelector (no prev_gains, max_seats = 1 for every candidate): in every round without a tie the
+   winner holds no seat yet, nobody who holds a seat is scored any more, the winner has strictly the greatest score
+   sum, one quota (or all they have) leaves its strongest supporters first, then the winner leaves every ballot
+   while the other candidates' score sums over the cut ballots stay as they are *)
+Theorem C12_alloc_select_round : forall votes cf n cur el rem c rest cur' el' rem',
+  sel_like votes cf -> wpos votes -> (0 < ac_quota cf)%Q ->
+  areach cf votes [] n cur el rem -> (0 < rem)%nat ->
+  get_n_best Qle_bool (sum_scores cur) 1 = Cand c :: rest ->
+  alloc_step cf cur el rem = AS_next cur' el' rem' ->
+  eget el c = 0%Z /\ (forall x, eget el x <> 0%Z -> ~ scored x cur) /\
+  (scored c cur /\ forall d, scored d cur -> d <> c -> (wscore cur d < wscore cur c)%Q) /\
+  el' = eincr el c /\ rem' = (rem - 1)%nat /\
+  exists mid, removal_spec c (ac_quota cf) cur mid /\ cur' = subset_out c mid /\
+              (wtotal cur' == wtotal cur - Qmin (ac_quota cf) (asupport c cur))%Q /\
+              ~ scored c cur' /\ forall x, x <> c -> (wscore cur' x == wscore mid x)%Q.
+Proof. exact alloc_select_round. Qed.
+
+(* the answer of evaluate is the dictionary of the last state reached; the model's fuel is enough; the only
+   exceptions are the ValueError of the subtraction loop, the IndexError of get_n_best(..)[0] on ballots without
+   scores, and ZeroDivisionError of the Hare quota for no seats *)
+Theorem C12_alloc_run : forall qs orders votes n prev mx,
+  let cf := alloc_cfg qs orders votes n prev mx in
+  wpos votes -> (0 < ac_quota cf)%Q ->
+  match alloc_distribute qs orders votes n prev mx with
+  | inl e => exists cur el rem, areach cf votes [] n cur el rem /\ alloc_step cf cur el rem = AS_done e
+  | inr AE_fuel => False
+  | inr AE_zerodiv => n = 0%nat
+  | inr e => exists cur el rem, areach cf votes [] n cur el rem /\ alloc_step cf cur el rem = AS_err e
+  end.
+Proof. exact alloc_distribute_run. Qed.
+
+(* Hare (1) and Droop (3) quotas of a non-empty electorate with positive weights are positive *)
+Theorem C12_alloc_quota_positive : forall i orders votes n prev mx,
+  (i = 1 \/ i = 3)%Z -> wpos votes -> votes <> [] -> (1 <= n)%nat ->
+  (0 < ac_quota (alloc_cfg (QNamed i) orders votes n prev mx))%Q.
+Proof. exact alloc_quota_pos. Qed.
+
+(* the hypotheses hold on a run of three rounds *)
+Example C12_alloc_example :
+  wposb w_example = true /\
+  alloc_select (QNamed 3) [] w_example 3 = inl [Cand 1%positive; Cand 3%positive; Cand 2%positive] /\
+  alloc_select (QNamed 1) [] w_example 2 = inl [Cand 1%positive; Cand 3%positive].
+Proof. exact alloc_example. Qed.
+
+(* ---- where the code leaves "one quota of the strongest supporters per seat" (replayed on the implementation).
+   An ordinary two-party election (4 voters A:5, 2 voters B:5; two seats; Hare - and 2 + 1 voters under Droop):
+   ValueError instead of [A, B] (known finding C12-allocated-score-crash) *)
+Theorem C12_alloc_crash_refuted : exists votes votes' : wprofile,
+  wposb votes = true /\ alloc_select (QNamed 1) [] votes 2 = inr AE_value /\
+  alloc_select (QNamed 3) [] votes' 2 = inr AE_value.
+Proof. exists w_crash. eexists. exact alloc_crash_witness. Qed.
+
+(* three candidates level for two seats: a single tie entry for both seats (known finding C08-allocated-score-shape) *)
+Theorem C12_alloc_tie_shape_refuted : exists votes : wprofile,
+  alloc_select (QNamed 1) [] votes 2 = inl [TieR [1%positive; 2%positive; 3%positive]].
+Proof. exists w_tie3. exact alloc_tie_shape_witness. Qed.
+
+(* two candidates level for two seats: both are elected, in the iteration order of the Tie frozenset - one order
+   crashes, the other answers (known finding C10-allocated-score) *)
+Theorem C12_alloc_tie_order_refuted : exists votes : wprofile,
+  alloc_select (QNamed 1) [[1%positive; 2%positive]] votes 2 = inr AE_value /\
+  alloc_select (QNamed 1) [[2%positive; 1%positive]] votes 2 = inl [Cand 2%positive; Cand 1%positive].
+Proof. exists w_order. exact alloc_tie_order_witness. Qed.
+
+(* ... and the second of them is seated although, at that moment, it is scored on no remaining ballot while another
+   candidate has a positive score sum: the tie branch does not re-run the maximum *)
+Theorem C12_alloc_tie_second_refuted : exists votes : wprofile,
+  let cf := alloc_cfg (QNamed 1) [[2%positive; 1%positive]] votes 2 [] (map (fun c => (c, 1%Z)) (all_scored votes)) in
+  alloc_select (QNamed 1) [[2%positive; 1%positive]] votes 2 = inl [Cand 2%positive; Cand 1%positive] /\
+  exists cur1 el1, elect_one cf votes [] 2%positive = inl (cur1, el1) /\
+                   (wscore cur1 1%positive < wscore cur1 3%positive)%Q /\ (wscore cur1 1%positive == 0)%Q.
+Proof. exists w_second. exact alloc_tie_second_witness. Qed.
+
+(* positive weights are needed: a ballot of weight 0 on the winner's top level stops the subtraction *)
+Theorem C12_alloc_zero_weight_refuted : exists cur : wprofile,
+  fraction_out 4 cur 1%positive 2 = inl cur /\ (asupport 1%positive cur == 2)%Q /\ wposb cur = false.
+Proof. exists w_zero. exact alloc_zero_weight_witness. Qed.
+
+
+(* ---- majority judgment, default tie-break: the multi-copy removal step is the documented one-at-a-time rule.
+   [sub]: candidate -> (grade -> count); cs_ok = counts >= 0 and the grades of a dictionary distinct as numbers
+   (dictionaries built by cs_set are); [mj_successive k]: k times, recompute every candidate's lower median and
+   remove ONE copy of it from each.  One round of the loop (mj_round: the candidates T on the shared highest
+   median stay and mj_ch copies of that grade leave each of them at once) equals mj_ch such single rounds among T;
+   while fewer than mj_ch copies are gone every candidate of T still has the median it had (so nobody falls behind
+   or gets ahead in between and the intermediate comparisons the code skips could not have decided anything);
+   the state after the round satisfies the hypotheses again. *)
+Theorem C12_mj_multi_copy : forall sub medians T,
+  NoDup (map fst sub) -> Forall cs_ok sub -> aggregate FMedianLow sub = inl medians ->
+  let lvl := mj_level sub T in
+  let ch := mj_ch lvl medians in
+  mj_successive (Z.to_nat ch) lvl = inl (mj_round sub medians T) /\
+  (forall j, (0 <= j < ch)%Z -> medians_of (mj_remove lvl medians j) medians) /\
+  NoDup (map fst (mj_round sub medians T)) /\ Forall cs_ok (mj_round sub medians T).
+Proof. exact mj_round_successive. Qed.
+
+(* the same for any set of candidates whose current medians [medians] holds *)
+Theorem C12_mj_multi_copy_general : forall sub medians,
+  NoDup (map fst sub) -> Forall cs_ok sub -> medians_of sub medians ->
+  (forall j, (0 <= j < mj_ch sub medians)%Z -> medians_of (mj_remove sub medians j) medians) /\
+  mj_successive (Z.to_nat (mj_ch sub medians)) sub = inl (mj_remove sub medians (mj_ch sub medians)).
+Proof. exact mj_multi_copy_successive. Qed.
+
+Example C12_mj_multi_copy_example :
+  NoDup (map fst ex_sub) /\ Forall cs_ok ex_sub /\ aggregate FMedianLow ex_sub = inl ex_med /\
+  mj_ch ex_sub ex_med = 2%Z /\ mj_successive 2 ex_sub = inl (mj_remove ex_sub ex_med 2).
+Proof. exact mj_multi_copy_example. Qed.
+
 Print Assumptions C12_combinations_complete.
 Print Assumptions C12_combinations_sound.
 Print Assumptions C12_pav_optimal.
@@ -251,3 +442,19 @@ Print Assumptions C12_pav_jr_answer.
 Print Assumptions C12_star_support.
 Print Assumptions C12_star_runoff.
 Print Assumptions C12_star_auto_runoff.
+Print Assumptions C12_alloc_strongest_first.
+Print Assumptions C12_alloc_cut_members.
+Print Assumptions C12_alloc_cut_order.
+Print Assumptions C12_alloc_winner.
+Print Assumptions C12_alloc_round.
+Print Assumptions C12_alloc_every_round.
+Print Assumptions C12_alloc_select_round.
+Print Assumptions C12_alloc_run.
+Print Assumptions C12_alloc_quota_positive.
+Print Assumptions C12_alloc_crash_refuted.
+Print Assumptions C12_alloc_tie_shape_refuted.
+Print Assumptions C12_alloc_tie_order_refuted.
+Print Assumptions C12_alloc_tie_second_refuted.
+Print Assumptions C12_alloc_zero_weight_refuted.
+Print Assumptions C12_mj_multi_copy.
+Print Assumptions C12_mj_multi_copy_general.
